@@ -146,6 +146,9 @@ inline void* ledger_allocate(size_t n, size_t esz, size_t align, int arena)
         p = (reinterpret_cast<uintptr_t>(raw) + 32 + 2 * A - 1) / (2 * A) * (2 * A) + A;  // p == A (mod 2A)
     }
     auto* pb = reinterpret_cast<unsigned char*>(p);
+    // the guard zones get a fixed content too: an out-of-bounds READ (reported by ASan, execution continues in
+    // recover mode) must return the same bytes in every process, or replays of a buggy history would diverge
+    std::memset(raw, 0xEE, rawsz);
     for (size_t i = 0; i < bytes; ++i) pb[i] = junk_byte(l.junk, l.serial, i);
     // left guard: poison up to the 8-byte granule containing p, canary for the rest
     auto* granule = reinterpret_cast<unsigned char*>(p & ~uintptr_t{7});
